@@ -1,4 +1,5 @@
 import Tahoe.Immutable.LemmasHelper
+import Tahoe.Immutable.LemmasHelperPresence
 /-! C44 — helper-assisted uploads are equivalent to direct uploads (property theorems; model in
 `Tahoe/Immutable/Helper.lean`, lemmas in `Tahoe/Immutable/LemmasHelper.lean`).
 
@@ -79,5 +80,39 @@ theorem absent_needs_upload (shnums : List Nat) (u : HUR) (h : (dedup shnums).le
 
 example : uploadChk false [0, 1, 1, 0] (some ⟨99, 2, 3, 64, 100, 3⟩) = .needUpload true ∧
     uploadChk true [0, 1, 2] (some ⟨99, 2, 3, 64, 100, 3⟩) = .needUpload false := by decide
+
+/-- **`present_implies_all_shares`**: for every multiset of `get_buckets` answers (server, share
+number) in which share numbers are below `N = total_shares`: if the helper's check says "present",
+then every one of the `N` share numbers is held by some server — however many servers hold duplicates. -/
+theorem present_implies_all_shares (answers : List (Nat × Nat)) (n : Nat)
+    (hvalid : ∀ a ∈ answers, a.2 < n) (h : presentOf answers (some n) = true) :
+    ∀ i, i < n → ∃ srv, (srv, i) ∈ answers := by
+  intro i hi
+  have hlen : n ≤ (dedup (answers.map (·.2))).length := by
+    simp only [presentOf, alreadyPresent, Bool.not_eq_true', decide_eq_false_iff_not] at h
+    omega
+  have hmem := nodup_covers n (dedup (answers.map (·.2))) (dedup_nodup _) (by
+    intro x hx
+    have := (mem_dedup _ x).1 hx
+    simp only [List.mem_map] at this
+    obtain ⟨a, ha, rfl⟩ := this
+    exact hvalid a ha) hlen i hi
+  have := (mem_dedup _ i).1 hmem
+  simp only [List.mem_map] at this
+  obtain ⟨a, ha, rfl⟩ := this
+  exact ⟨a.1, ha⟩
+
+/-- shares 0 and 1 doubled, share 2 lost: four share files for N = 3, not present; with share 2 back: present -/
+example : presentOf [(0, 0), (1, 0), (1, 1), (2, 1)] (some 3) = false ∧
+    presentOf [(0, 0), (1, 0), (1, 1), (2, 1), (3, 2)] (some 3) = true := by decide
+
+/-- counting share *files* instead of distinct share numbers breaks it: the rule says "present" for
+the layout above although share 2 exists nowhere -/
+theorem counting_files_counterexample :
+    presentByFileCount [(0, 0), (1, 0), (1, 1), (2, 1)] (some 3) = true ∧
+    ¬ ∃ srv, (srv, 2) ∈ [((0 : Nat), (0 : Nat)), (1, 0), (1, 1), (2, 1)] := by
+  refine ⟨by decide, ?_⟩
+  rintro ⟨srv, h⟩
+  simp at h
 
 end Tahoe.C44
